@@ -69,8 +69,8 @@ CLAIMS = {
         note="Bounded (pending versions <= 2; thorough adds a 3-delivery any-order history). Not decided: persistence/restart (async tokio fs, crash points of temp-file+rename) — only `a loaded watermark never decreases afterwards` follows from the per-call contract. Model BTreeMap assumed."),
     "C12": dict(
         category="other", design_ref="§7 U10",
-        technique="Kani/CBMC on OrderedQueue::{insert,pop,progress_to,next,new} extracted verbatim against the model BTreeMap: per-call contracts with whole-map frames over arbitrary queue states",
-        text="Bounded stand-in, labelled: every method of the reorder buffer is checked against the property's clauses (stale/conflicting writes rejected without changing the buffer, duplicates merged once, only the write at the next expected sequence is handed over, eviction only of the largest key and reported) for ALL keys/next values but at most 3 buffered entries.",
+        technique="Verus unbounded proof (generic key / value) of whole-map contracts on OrderedQueue::{pop,progress_to,next} extracted verbatim + Kani/CBMC on OrderedQueue::{insert,pop,progress_to,next,new} against the model BTreeMap: per-call contracts with whole-map frames over arbitrary queue states (insert uses the Entry API, which Verus rejects)",
+        text="pop hands over exactly the write buffered at the next expected sequence and removes nothing else, progress_to only moves `next`, next() reads it: proved for every map and every key type obeying the order laws (Verus, unbounded). Bounded stand-in for insert (<= 3 buffered entries, keys / next full-range): stale / conflicting writes rejected without changing the buffer, duplicates merged once, eviction only of the largest key in favour of a smaller one and reported.",
         note="Bounded (entries <= 3, limit <= 3). Not decided: liveness (`eventually answered`), actor mailbox schedules, the async replicate.rs callers. Known finding: progress_to leaves entries below next."),
     "C13": dict(
         category="other", design_ref="§4 C13 / U08",
